@@ -246,13 +246,18 @@ impl<T: Qcow2IoOps> Qcow2Dev<T> {
         futures::future::join_all(f_vec).await;
 
         {
+            // Release the per-cluster locks before asking for the map's
+            // write lock: a writer waiting for one of them holds the map's
+            // read lock, so keeping them would deadlock.  Every cluster is
+            // marked as handled already, so nobody zeroes it again.
+            let keys: Vec<u64> = cluster_map
+                .into_iter()
+                .map(|(cls_key, _locked_cls)| cls_key)
+                .collect();
             let mut cls_map = self.new_cluster.write().await;
 
-            for (cls_key, _locked_cls) in cluster_map {
+            for cls_key in keys {
                 cls_map.remove(&cls_key);
-
-                // _locked_cls drops after this entry is removed from
-                // new cluster map
             }
         }
 
